@@ -211,7 +211,6 @@ def run(ctx):
     ctx.floor('display_strings', 150)
     ctx.floor('states_scanned', 1200)
     ctx.floor('placeholder_classes', 4)
-    ctx.floor('value_rewriting_tokens', 4)
     ctx.floor('reachability_checks', 150)
 
 
